@@ -9,9 +9,50 @@ use crate::prop;
 use crate::textgen::{self, ITEMS};
 use serde_json::json;
 
-const RULE: &str = "UTF-8 texts: (1) bounded-exhaustive: ALL sequences of up to L lexical items from a 56-item alphabet of the grammar language (keywords, punctuators, identifiers, strings incl. '' / escapes / unterminated / multi-byte, ?1 ?t #1 !1 @a @ <1 1>a > 1> >a, line/doc/block comments incl. unterminated and without final newline, whitespace, stray characters), joined with and without a space (L = 3 quick, 4 thorough); (2) token-level mutations (delete, duplicate, insert, swap, truncate, replace) of every .llw file in the repository and of generated grammars in random layouts; (2b) systematically, for generated grammars (canonical and random layout), EVERY single-lexeme deletion and every third single-lexeme duplication; (3) byte soup mixing grammar fragments, ASCII and multi-byte code points. Oracle: lexing + parsing + semantic pass return (no panic); every label range satisfies start <= end <= len on char boundaries; every diagnostic renders (rich and short) with codespan; token leaves of the front end's own CST tile the text. non-trivial = text with >= 1 syntax error that still reaches the semantic pass, or a multi-byte character inside a token that draws a diagnostic; distinct = the text";
+const RULE: &str = "UTF-8 texts: (1) bounded-exhaustive: ALL sequences of up to L lexical items from a 56-item alphabet of the grammar language (keywords, punctuators, identifiers, strings incl. '' / escapes / unterminated / multi-byte, ?1 ?t #1 !1 @a @ <1 1>a > 1> >a, line/doc/block comments incl. unterminated and without final newline, whitespace, stray characters), joined with and without a space (L = 3 quick, 4 thorough); (2) token-level mutations (delete, duplicate, insert, swap, truncate, replace) of every .llw file in the repository and of generated grammars in random layouts; (2b) systematically, for generated grammars (canonical and random layout), EVERY single-lexeme deletion and every third single-lexeme duplication; (3) byte soup mixing grammar fragments, ASCII and multi-byte code points; (4) bracket nesting of depth 100 / 350 (in-process) and 3000 / 20000 (through `llw -c` in a child process: no abort, no panic). Oracle: lexing + parsing + semantic pass return (no panic); every label range satisfies start <= end <= len on char boundaries; every diagnostic renders (rich and short) with codespan; token leaves of the front end's own CST tile the text. non-trivial = text with >= 1 syntax error that still reaches the semantic pass, or a multi-byte character inside a token that draws a diagnostic; distinct = the text";
+
+/// nesting depth up to which a text is evaluated in-process
+pub const DEEP: usize = 400;
+
+/// A deeply nested text goes through the real `llw -c` in a child process: the front end is
+/// recursive descent, and a stack overflow would take the whole check down with it.
+pub fn deep_text_check(text: &str, ev: &mut Evidence, origin: &str) -> Result<(), Violation> {
+    ev.eval();
+    let llw = super::c17::llw();
+    if !llw.exists() {
+        ev.exclude("deeply nested text not evaluated (llw binary not built)");
+        return Ok(());
+    }
+    let dir = crate::lab::scratch_root().join(format!("deep-{:?}", std::thread::current().id()).replace(['(', ')'], ""));
+    let _ = std::fs::create_dir_all(&dir);
+    let file = dir.join("deep.llw");
+    std::fs::write(&file, text).unwrap();
+    let out = std::process::Command::new(&llw).current_dir(&dir).env("NO_COLOR", "1").args(["-c", file.to_str().unwrap()]).output();
+    let _ = std::fs::remove_dir_all(&dir);
+    let Ok(out) = out else {
+        ev.exclude("deeply nested text not evaluated (llw could not be started)");
+        return Ok(());
+    };
+    ev.label("deep_texts_through_llw");
+    let err = String::from_utf8_lossy(&out.stderr);
+    let depth = textgen::max_nesting(text);
+    if out.status.code().is_none() || err.contains("overflowed its stack") {
+        return Err(Violation {
+            sig: "abort:deep-nesting".into(),
+            what: format!("`llw -c` is killed ({}) on a text with bracket nesting depth {depth}: {}", out.status, err.lines().find(|l| l.contains("overflow") || l.contains("panicked")).unwrap_or("")),
+            replay: json!({"text": text, "origin": origin}),
+        });
+    }
+    if err.contains("panicked at") {
+        return Err(Violation { sig: "panic:deep-text".into(), what: format!("`llw -c` panics on a text with bracket nesting depth {depth}: {}", err.lines().find(|l| l.contains("panicked")).unwrap_or("")), replay: json!({"text": text, "origin": origin}) });
+    }
+    Ok(())
+}
 
 pub fn check_text(text: &str, ev: &mut Evidence, origin: &str) -> Result<(), Violation> {
+    if textgen::max_nesting(text) > DEEP {
+        return deep_text_check(text, ev, origin);
+    }
     let _case = crate::prop::case_guard("C12", origin, text);
     ev.eval();
     let t2 = text.to_string();
@@ -211,6 +252,20 @@ pub fn run(ctx: &Ctx) -> i32 {
     ev.merge(out.ev);
     for v in out.violations.into_iter().chain(out.known_hits) {
         rep.violation(v);
+    }
+    // (4) deep nesting, through the real binary in a child process
+    for depth in [100usize, 350, 3000, 20000] {
+        for (o, c) in [("(", ")"), ("[", "]")] {
+            for closed in [true, false] {
+                let body = format!("{}A{}", o.repeat(depth), if closed { c.repeat(depth) } else { String::new() });
+                let text = format!("token A B;\nstart s;\ns: {body} B;\n");
+                ev.label("deep_nesting_texts");
+                let r = if depth <= DEEP { check_text(&text, &mut ev, "deep nesting") } else { deep_text_check(&text, &mut ev, "deep nesting") };
+                if let Err(v) = r {
+                    rep.violation(v);
+                }
+            }
+        }
     }
     if ctx.tier == crate::ev::Tier::Thorough || std::env::var("VERIF_FUZZ").is_ok() {
         fuzz_stage(ctx, &mut ev, &mut rep, &corpus);
